@@ -48,10 +48,13 @@ def differential(eng, rep, topo, n, steps, mode):
             w.emit = emit
             try:
                 pipe.start()
-                if with_eph and mode == 'stall':
+                if with_eph and mode in ('stall', 'late'):
                     for e in ephs:
                         pipe.stall(e)
                 faults = None
+                if with_eph and mode == 'late':      # the listeners attach after the synchronized consumers are registered
+                    at = rng.randrange(120, 200)
+                    faults = [(at, lambda p, ephs=ephs: [p.resume(e) for e in ephs])]
                 if with_eph and mode == 'kill':
                     at = rng.randrange(10, 150)
                     faults = [(at, lambda p, ephs=ephs: [p.kill(e, True) for e in ephs if e in p.world.tasks])]
@@ -88,6 +91,12 @@ def differential(eng, rep, topo, n, steps, mode):
             p2.close()
 
 
+def balance2_eph_first(**kw):
+    t = topos.balance2_eph(**kw)
+    t.name = 'Balance2EphFirst'
+    return t
+
+
 def scenarios(quick):
     T = topos
     return dict(
@@ -101,7 +110,8 @@ def scenarios(quick):
               (T.tee_rejoin_eph(maxseq=2), 'SpecPrompt', 8 if quick else 100, 250, {}),
               (T.eph_side(maxseq=2), 'Spec', 6 if quick else 60, 250, {}),
               (T.eph_multi(maxseq=2), 'SpecPrompt', 8 if quick else 80, 250, {}),
-              (T.eph_first(maxseq=2), 'SpecPrompt', 6 if quick else 60, 250, {})],
+              (T.eph_first(maxseq=2), 'SpecPrompt', 6 if quick else 60, 250, {}),
+              (T.balance2_eph(maxseq=3), 'SpecPrompt', 6 if quick else 60, 300, {})],
         rand=[(T.eph_side(maxseq=4), 8 if quick else 150, 800, 0.05, 0.03),
               (T.tee_rejoin_eph(maxseq=4), 8 if quick else 150, 1200, 0.03, 0.0),
               (T.balance2_watch(maxseq=4), 6 if quick else 100, 1000, 0.03, 0.0),
@@ -111,7 +121,11 @@ def scenarios(quick):
               (topos.with_required(T.eph_side(maxseq=5)), 3 if quick else 40, 1500, 'kill'),
               (topos.with_required(T.tee_rejoin_eph(maxseq=4)), 3 if quick else 40, 2000, 'run'),
               (topos.with_required(T.tee_rejoin_eph(maxseq=4)), 3 if quick else 40, 2000, 'stall'),
-              (topos.with_required(T.tee_rejoin_eph(maxseq=8)), 3 if quick else 40, 3000, 'kill')],
+              (topos.with_required(T.tee_rejoin_eph(maxseq=8)), 3 if quick else 40, 3000, 'kill'),
+              # a '?' listener on the endpoint of a slow worker of a balanced splitter
+              (T.balance2_eph(maxseq=40), 3 if quick else 40, 9000, 'late'),
+              # the same with the listener attached from the very start (before the slow worker has registered): known finding
+              (balance2_eph_first(maxseq=10), 2 if quick else 10, 4000, 'run')],
     )
 
 
